@@ -58,3 +58,37 @@ def scripted_job(job, beh):
             if n["name"] == name:
                 n["fail_at"] = [idx]
     return j
+
+
+def replay_explored(ctx, jobs, behs, extra=None):
+    """Replay every explored behaviour of every job on the real runners (the job's own mode) and compare
+    outcome, per-node invocations (arguments included) and output keys.  extra(ctx, job, model, obs, wit)
+    may add property-specific comparisons.  Returns the number of behaviours replayed."""
+    from . import enginecheck
+    n = 0
+    for j in jobs:
+        for b in behs.get(j["id"], []):
+            n += 1
+            ctx.count()
+            ctx.traces()
+            sj = scripted_job(j, b)
+            sj = {k: v for k, v in sj.items() if not k.startswith("_")}
+            o, _, _ = predict.try_real(sj)
+            m = predict.norm_model(dict(b, done=[], raw_keys=[]))
+            wit = {"job": sj, "tag": j.get("_tag", ""), "explored": {"status": b["status"], "values": b["values"], "calls": [(c["path"], c["dec"]) for c in b["calls"]]},
+                   "observed": o if "rejected" in o else {x: o[x] for x in ("status", "values", "err")}}
+            if "rejected" in o:
+                continue
+            mm = enginecheck.common_mismatch(m, o)
+            if mm:
+                ctx.violation("explored:outcome", wit, mm)
+                continue
+            if predict.per_node(m["calls"]) != predict.per_node(o["calls"]):
+                ctx.violation("explored:invocations", wit, f"per-node invocations {predict.per_node(o['calls'])} differ from the explored behaviour {predict.per_node(m['calls'])}")
+                continue
+            if set(m["values"]) != set(o["values"]):
+                ctx.violation("explored:output-keys", wit, f"outputs {sorted(o['values'])}, explored behaviour {sorted(m['values'])}")
+                continue
+            if extra is not None:
+                extra(ctx, sj, m, o, wit)
+    return n
